@@ -483,6 +483,10 @@ def grammar():
         # a stray extra end tag of an element that was removed before, then a new region
         docs.append(f"<p>VISa</p><{r}>HIDa</{r}></{r}><p>VISb</p><{r}>HIDb</{r}><p>VISc</p>")
         docs.append(f"<p>VISa</p></{r}><p>VISb</p><{r}>HIDb</{r}><p>VISc</p></{r}><p>VISd</p>")
+    # textual comment / CDATA delimiters where the tokeniser does not see a comment (raw text, attribute values)
+    docs += ['<script>var s = "<!--";</script><p>VISa</p><!-- HIDa --><p>VISb</p>', "<style>/* <!-- */</style><p>VISa</p><!-- HIDa --><p>VISb</p>",
+             "<p title='<!--'>VISa</p><p>VISb</p><!-- HIDa --><p>VISc</p>", '<script>if (a --> b) {}</script><p>VISa</p><!-- HIDa --><p>VISb</p>',
+             "<!-- HIDa --><p>VISa</p><script>// --> HIDb</script><p>VISb</p>", "<p>VISa</p><!-- HIDa -- HIDb --><p>VISb</p>", "<p>VISa</p><!--HIDa--!><p>VISb</p>"]
     docs += long_prefix_docs()
     docs += deep_docs()
     return docs
